@@ -23,6 +23,56 @@ CHECKS = {
     ),
 }
 
+CHECKS.update({
+    "C01": dict(
+        category="model_checking",
+        text="Lifecycle.tla requires every CheckBegin to be followed by Walked and CheckEnd; TraceLifecycle.tla has no action for a "
+             "panic or deadline event, so a recorded execution of the real checkers that contains one is rejected at that line. "
+             "Every registered checker is run (under recover and a per-Check deadline) on every file of the corpora: all example "
+             "files, programs enumerated by Scopes.tla (namesakes of builtins / std packages, unusual call shapes), and in the thorough "
+             "tier all of std and the repository, at the default, minimal, unit and maximal parameter corners.",
+        design_ref="DESIGN.md section 6 C01",
+        note="Bounded program grammar + corpora, not all Go programs; hangs are detected by a 60 s per-Check deadline.",
+        technique="trace validation against the TLA+ lifecycle model over corpora and spec-enumerated programs",
+        engine="lifecycle"),
+    "C05": dict(
+        category="model_checking",
+        text="Lifecycle.tla states the frame condition of a walk (tree, type information, context and registry unchanged; what-if "
+             "CopiesFirst=FALSE refutes InputsReadOnly and, through the next checker, HistIndep). Recorded executions log with every "
+             "Walked event whether the structural fingerprint (reflection walk of the whole *ast.File graph incl. aliasing, per-node "
+             "types.Info entries, Context fields, registered metadata and parameter values) still equals the baseline taken before any "
+             "checker ran, and compare every checker's result after other checkers with its result alone; TraceLifecycle.tla rejects "
+             "any event with fpSame = FALSE or got # fresh.",
+        design_ref="DESIGN.md section 6 C05",
+        note="Example files in the quick tier (own checker + rewriting group + sampled others per file, both orders); std sample and "
+             "repository in the thorough tier.",
+        technique="TLA+ frame condition + fingerprint-carrying trace validation",
+        engine="lifecycle"),
+    "C06": dict(
+        category="model_checking",
+        text="Selection.tla defines the documented algebra (DocSel) and transcriptions of the CLI, analyzer and docs-mark routines; "
+             "TLC checks Impl = Doc on every tag profile x configuration (lists up to 2 keys over own/other/unknown/empty names and "
+             "all/unknown tags, enable-all, flag-not-given) and exports every case for the real registry's profiles. Each exported case "
+             "is evaluated on the real filter routines (both command packages through verif in-package drivers running the real pipeline "
+             "up to initCheckers; the analyzer through its filter), including empty selections, construction of unselected checkers "
+             "and the documentation marks.",
+        design_ref="DESIGN.md section 6 C06, Appendix A.7",
+        note="Whitespace-padded keys and analyzer configurations outside Selection!Translatable are outside the claim; embedded checkers "
+             "are stand-ins with their real names/tags in the drivers.",
+        technique="exhaustive TLC sweep of the configuration space + replay of every exported case on the three real routines",
+        engine="selection"),
+    "C07": dict(
+        category="model_checking",
+        text="The obligations of a diagnostic (valid position inside the physical file being analysed, at the start of a token or "
+             "comment, well-formed fix range in the same file, non-empty text without formatting artefacts) are guards of the Walked "
+             "action of TraceLifecycle.tla; every recorded Check of every checker on the corpora is validated against it.",
+        design_ref="DESIGN.md section 6 C07",
+        note="Corpora: example files (default and minimal parameters), spec-enumerated programs; thorough adds std, the repository "
+             "and the maximal parameter corner.",
+        technique="trace validation with per-warning obligations as action guards",
+        engine="lifecycle"),
+})
+
 NOT_YET = "check not built yet (construction in progress; see DESIGN.md section 6)"
 NOT_APPLICABLE = {}
 
